@@ -457,11 +457,13 @@ def collect_inputs_for_node(
     from hypergraph.nodes.graph_node import GraphNode
 
     inputs = {}
+    mapped = node.map_config[0] if isinstance(node, GraphNode) and node.map_config else ()
     for param in node.inputs:
-        if isinstance(node, GraphNode) and get_value_source(param, node, graph, state, provided_values)[0] == ValueSource.DEFAULT:
+        if isinstance(node, GraphNode) and param not in mapped and get_value_source(param, node, graph, state, provided_values)[0] == ValueSource.DEFAULT:
             # A nested graph resolves (and deep-copies) its own signature defaults:
             # once per run, hence once per item when the node maps over its inputs.
-            # A copy made here would be shared by all items of the map.
+            # A copy made here would be shared by all items of the map. (The list
+            # a node maps over is needed here even when it is a default.)
             continue
         inputs[param] = _resolve_input(param, node, graph, state, provided_values)
     return inputs
